@@ -21,14 +21,14 @@
      both   a handle argument has been returned by an earlier allocation of the right kind (it may have been released:
             both implementations detect that), values stored as data mention only handles returned so far;
             element-size arguments are the array's own;
-     VM     state offsets fit the bytecode's 24-bit field; an array index is not +infinity; (trait only: now = 0, sr = 48000)
+     VM     state offsets fit the bytecode's 24-bit field; (trait only: now = 0, sr = 48000)
      WASM   the specification does not fault on a state operation (no cursor underflow, no access outside the storage);
             offsets are non-negative; a delay line has at most MAX_WASM_DELAY_SAMPLES = 2^24 samples; `len` only on
             arrays of one-word elements.
    [ops_short]: fewer than 2^32 - 4 operations (slot-map indices and versions are 32-bit fields of the handle). *)
 From Coq Require Import List ZArith NArith Bool.
 From Mimium Require Import Heap.Model Lmmm.Machine Prims.Float Prims.StateOps Prims.Spec Prims.Impl Prims.Vm Prims.Wasm
-  Prims.Pre Prims.Bits Prims.HeapSim Prims.ArrSimVm Prims.Sim Prims.SimVm Prims.SimWasm Prims.Agree Prims.Differs.
+  Prims.Pre Prims.Bits Prims.HeapSim Prims.ArrSimVm Prims.Sim Prims.SimVm Prims.SimWasm Prims.Agree Prims.Differs Prims.Usersum.
 Import ListNotations.
 Local Open Scope N_scope.
 
@@ -74,8 +74,9 @@ Theorem C01_prims_same_length : forall size now sr ops,
   length (vm_run size ops) = length (wasm_run now sr ops).
 Proof. exact vm_wasm_same_length. Qed.
 
-(* the VM's index conversion is the contract's (truncate, clamp) except at +infinity *)
-Theorem C01_prims_vm_index : forall idx len, is_pinf idx = false -> len <> 0 -> vm_index idx len = clamp_index idx len.
+(* the VM's index conversion is the contract's (saturating truncation, then clamp) for EVERY index word: finite,
+   NaN, -infinity, +infinity (since the repair 15d0817; before it +infinity selected element 0) *)
+Theorem C01_prims_vm_index : forall idx len, len <> 0 -> vm_index idx len = clamp_index idx len.
 Proof. exact vm_index_clamp. Qed.
 
 (* bytecodegen's array literal (AllocArray, then SetArrayElem for element 0, 1, ..) stores exactly the literal *)
@@ -86,7 +87,7 @@ Theorem C01_prims_literal : forall e data n i cur N,
 Proof. exact fill_list_all. Qed.
 
 (* ---- outside the hypotheses: where the implementations differ (one witness per hypothesis; replayed on the real
-   implementations by checks/prims_part.py).  3 4 5 6 are reached by compiled programs (see Prims/Differs.v). ---- *)
+   implementations by checks/prims_part.py).  3 5 6 are reached by compiled programs (4, the index +infinity, is repaired) (see Prims/Differs.v). ---- *)
 Theorem C01_prims_state_underflow_differs :
   spec_run (spec_init 4 0 F64_44100) w_underflow = [SFault FUnderflow] /\
   vm_run 4 w_underflow = [IFault FUnderflow] /\
@@ -104,14 +105,6 @@ Proof. exact state_out_of_range_differs. Qed.
 Theorem C01_prims_delay_cap_differs : forall input time n m, MAX_WASM_DELAY_SAMPLES < n ->
   wasm_state_delay input time n m = (m, 0).
 Proof. exact delay_cap_differs. Qed.
-
-Theorem C01_prims_index_pinf_differs :
-  spec_run (spec_init 0 0 F64_44100) w_pinf = [SArrH 0; SVals [VNum F64_30]] /\
-  vm_run 0 w_pinf = [IHandle 4294967297; IWords [F64_10]] /\
-  wasm_run 0 F64_44100 w_pinf = [IHandle 1; IWords [F64_30]] /\
-  pre_run vm_pre (spec_init 0 0 F64_44100) w_pinf = false /\
-  pre_run wasm_pre (spec_init 0 0 F64_44100) w_pinf = true.
-Proof. exact index_pinf_differs. Qed.
 
 Theorem C01_prims_len_words_differs :
   spec_run (spec_init 0 0 F64_44100) w_len = [SArrH 0; SVals [VNum (f64_of_N 2)]] /\
@@ -151,6 +144,34 @@ Theorem C01_prims_element_size_differs :
   vm_run 0 w_esz = [IHandle 4294967297; IWords [3; 4]] /\
   wasm_run 0 F64_44100 w_esz = [IHandle 1; IWords [2]].
 Proof. exact element_size_differs. Qed.
+
+(* usersum_clone / usersum_release are outside the contract language of the theorems above (transcribed in Prims/Usersum.v and
+   compared with the real implementations): the VM retains / releases the boxes inside a value by a type-directed walk, the
+   WASM host does nothing.  A cons cell whose tail is the box h0 is cloned, then the box released once: the VM still has
+   the tail (count 2 -> 1), the WASM host has freed it (1 -> 0) and the next load faults there only. *)
+Theorem C01_prims_usersum_differs :
+  let value := fun raw => [1; 4607182418800017408; raw] in
+  let (h0, r0) := hp_alloc sm_new [0] in
+  match r0 with
+  | IHandle raw =>
+      let v1 := fst (vm_usersum_clone [ty_list] (mkVm h0 sm_new (st_init 0)) (value raw) 3 0) in
+      let hv := fst (hp_release (v_heap v1) raw) in
+      let w1 := fst (wasm_usersum_clone (mkWa h0 [] (st_init 0) 0 0) (value raw) 3 0) in
+      let hw := fst (hp_release (w_heap w1) raw) in
+      hp_load hv raw 1 = IWords [0] /\ hp_load hw raw 1 = IFault FInvalidHandle
+  | _ => False
+  end.
+Proof. exact usersum_differs. Qed.
+
+(* the former witness of the +infinity difference (repaired in /repo by 15d0817): both backends take the LAST element for
+   +infinity, the first for -infinity and NaN, and the hypotheses of both theorems hold there *)
+Example C01_prims_ex_index_infinity_agrees :
+  spec_run (spec_init 0 0 F64_44100) w_pinf = [SArrH 0; SVals [VNum F64_30]; SVals [VNum F64_10]; SVals [VNum F64_10]] /\
+  vm_run 0 w_pinf = [IHandle 4294967297; IWords [F64_30]; IWords [F64_10]; IWords [F64_10]] /\
+  wasm_run 0 F64_44100 w_pinf = [IHandle 1; IWords [F64_30]; IWords [F64_10]; IWords [F64_10]] /\
+  pre_run vm_pre (spec_init 0 0 F64_44100) w_pinf = true /\
+  pre_run wasm_pre (spec_init 0 0 F64_44100) w_pinf = true.
+Proof. exact index_pinf_agrees. Qed.
 
 (* ---- the hypotheses are satisfiable (heap objects holding handles, released handles, state, delay, arrays) ---- *)
 Example C01_prims_ex_heap :
